@@ -27,12 +27,13 @@ type VerifBlobDesc struct {
 	Members    []blob.Ref
 	MergeSets  []blob.Ref
 	FileName   string
+	Search     any // a search share: "search" set, no target
 }
 
 func VerifNewBlob(br blob.Ref, d VerifBlobDesc) *Blob {
 	ss := &superset{
 		Type: CamliType(d.Type), ClaimType: ClaimType(d.ClaimType), AuthType: d.AuthType, Target: d.Target, Transitive: d.Transitive,
-		Expires: types.Time3339(d.Expires), Parts: d.Parts, Entries: d.Entries, Members: d.Members, MergeSets: d.MergeSets, FileName: d.FileName,
+		Expires: types.Time3339(d.Expires), Parts: d.Parts, Entries: d.Entries, Members: d.Members, MergeSets: d.MergeSets, FileName: d.FileName, Search: d.Search,
 	}
 	ss.BlobRef = br
 	if d.Signed {
